@@ -21,6 +21,13 @@
      <id> EW <bis> <k> c1 name1 v1 ...             AsPDFSimple of the encoding {c -> name}, v = names.IsValid(name); then ExtractSimple
      <id> ER <nse> <obj> <k> c1..ck                ExtractSimple of obj = nil | named <b> | dict <b|-> <m> item... (item = I<int> | N<hex>:<v>)
      <id> E3W <k> c1 name1 ... ; E3R <m> item... <k> c1..ck     the same for Type 3
+   width round trips (Widths.v, RoundTripProofs.v), vertical metrics (VMetrics.v), UTF-16 (Utf16.v)
+     <id> WM <dw> <n> c1 w1 ... <k> q1..qk     /W of the map (entries in any order), width read for the CIDs q
+     <id> SW <inst> <dw> <W|B>                  /FirstChar /Widths of the encoder state with MissingWidth dw, read for every used code
+     <id> VE <n> c dy ox oy ...                 encodeVMetrics, then decodeVMetrics
+     <id> VD <items>                            decodeVMetrics: L c0 n (dy ox oy)* | R c0 c1 dy ox oy
+     <id> VX <oy> <dy> ; VW <k> v1..vk          /DW2: encode then decode; decode
+     <id> XE r1 ... ; XD u1 ...                 utf16.Encode of code points; utf16.Decode of units
    width tables (Widths.v)
      <id> WD <items...>          decode a /W array: R c0 c1 w | L c0 n w1..wn
      <id> WE <n> c1 w1 ...       encode, then decode
@@ -73,6 +80,38 @@ let show_assign l =
   | [] -> "-"
   | _ -> join (Stdlib.List.map (fun c -> Printf.sprintf "%d:%s" c (sz (Hashtbl.find tbl c))) cids)
 
+let svm ((a, b), c) = Printf.sprintf "%s/%s/%s" (sz a) (sz b) (sz c)
+
+let show_vassign l =
+  let tbl = Hashtbl.create 1024 in
+  Stdlib.List.iter (fun (c, v) -> Hashtbl.replace tbl (int_of_n c) v) l;
+  let cids = Stdlib.List.sort compare (Hashtbl.fold (fun c _ acc -> c :: acc) tbl []) in
+  match cids with
+  | [] -> "-"
+  | _ -> join (Stdlib.List.map (fun c -> Printf.sprintf "%d:%s" c (svm (Hashtbl.find tbl c))) cids)
+
+let rec triples = function
+  | a :: b :: c :: r -> ((z_of_string a, z_of_string b), z_of_string c) :: triples r
+  | [] -> []
+  | _ -> failwith "bad triples"
+
+let rec parse_vitems toks =
+  match toks with
+  | [] -> []
+  | "R" :: c0 :: c1 :: a :: b :: c :: r ->
+    VMetrics.VRange (n_of_string c0, n_of_string c1, ((z_of_string a, z_of_string b), z_of_string c)) :: parse_vitems r
+  | "L" :: c0 :: n :: r ->
+    let (vs, r') = take (3 * int_of_string n) r in
+    VMetrics.VList (n_of_string c0, triples vs) :: parse_vitems r'
+  | _ -> failwith "bad W2 item"
+
+let show_vitems its =
+  Stdlib.String.concat " " (Stdlib.List.map (function
+    | VMetrics.VRange (c0, c1, ((a, b), c)) -> Printf.sprintf "R %s %s %s %s %s" (sn c0) (sn c1) (sz a) (sz b) (sz c)
+    | VMetrics.VList (c0, vs) ->
+      Printf.sprintf "L %s %d%s" (sn c0) (Stdlib.List.length vs)
+        (Stdlib.String.concat "" (Stdlib.List.map (fun ((a, b), c) -> Printf.sprintf " %s %s %s" (sz a) (sz b) (sz c)) vs))) its)
+
 let rec pairs f = function
   | a :: b :: r -> f a b :: pairs f r
   | [] -> []
@@ -115,6 +154,23 @@ let parse_ditems toks (vt : (string, bool) Hashtbl.t) =
    last pair for every CID, also when a later pair re-mapped its code (CidEnc.tbl_all,
    theorem fromcmap_inverse_refuted); regress/revert-F50.diff re-introduces that. *)
 let cid_to_code = CidEnc.tbl_all_sound
+
+(* the tables of a predefined CMap have tens of thousands of pairs and the model's lookups are
+   linear: results of the (pure) model functions are memoised per table *)
+let memo_all : (string * int, BinNums.coq_N list option) Hashtbl.t = Hashtbl.create 4096
+let memo_rev : (string * string, BinNums.coq_N) Hashtbl.t = Hashtbl.create 4096
+
+let m_all tbl l c =
+  let k = (tbl, int_of_n c) in
+  match Hashtbl.find_opt memo_all k with
+  | Some r -> r
+  | None -> let r = cid_to_code l c in Hashtbl.add memo_all k r; r
+
+let m_rev tbl l code =
+  let k = (tbl, hex_of_bytes code) in
+  match Hashtbl.find_opt memo_rev k with
+  | Some r -> r
+  | None -> let r = CidEnc.tbl_rev l code in Hashtbl.add memo_rev k r; r
 
 let uinfo_str (i : CidEnc.uinfo) = Printf.sprintf "%s:%s:%s" (sn i.ui_cid) (sz i.ui_w) (hex i.ui_text)
 
@@ -213,19 +269,19 @@ let () =
     | id :: "GE" :: inst :: c :: t :: [w] ->
       let (tbl, s) = Hashtbl.find fromcmap inst in
       let l = Hashtbl.find tables tbl in
-      let (s', r) = CidEnc.fencode (cid_to_code l) s (n_of_string c) (bytes_of_hex t) (z_of_string w) in
+      let (s', r) = CidEnc.fencode (m_all tbl l) s (n_of_string c) (bytes_of_hex t) (z_of_string w) in
       Hashtbl.replace fromcmap inst (tbl, s');
       Printf.printf "%s %s\n" id (match r with CidEnc.FOk code -> "ok " ^ hex code | _ -> "err")
     | id :: "GG" :: inst :: c :: [t] ->
       let (tbl, s) = Hashtbl.find fromcmap inst in
       let l = Hashtbl.find tables tbl in
-      Printf.printf "%s %s\n" id (match CidEnc.fget_code (cid_to_code l) s (n_of_string c) (bytes_of_hex t) with
+      Printf.printf "%s %s\n" id (match CidEnc.fget_code (m_all tbl l) s (n_of_string c) (bytes_of_hex t) with
         | Some [] -> "zero" | Some code -> hex code | None -> "none")
     | id :: "GC" :: inst :: codes ->
       let (tbl, s) = Hashtbl.find fromcmap inst in
       let l = Hashtbl.find tables tbl in
       Printf.printf "%s %d %s\n" id (Stdlib.List.length codes)
-        (join (Stdlib.List.map (fun code -> uinfo_str (CidEnc.fget (CidEnc.tbl_rev l) s (bytes_of_hex code))) codes))
+        (join (Stdlib.List.map (fun code -> uinfo_str (CidEnc.fget (m_rev tbl l) s (bytes_of_hex code))) codes))
     | id :: "EB" :: which :: names ->
       let split t = match Stdlib.String.split_on_char ':' t with
         | [h; v] -> Hashtbl.replace base_valid h (v = "1"); h | _ -> failwith "bad EB" in
@@ -279,6 +335,52 @@ let () =
       Printf.printf "%s %s\n" id (match Encoding.extract_type3 (parse_ditems its vt) with
         | None -> "missing"
         | Some f -> join (Stdlib.List.map (fun c -> Printf.sprintf "%d:%s" c (hex (f (n_of_int c)))) (Stdlib.List.init 256 (fun i -> i))))
+    | id :: "WM" :: dw :: n :: rest ->
+      let (ps, rest) = take (2 * int_of_string n) rest in
+      let m = pairs (fun c w -> (n_of_string c, z_of_string w)) ps in
+      let qs = match rest with _k :: qs -> qs | [] -> [] in
+      let its = Widths.w_of_map m in
+      Printf.printf "%s %s\n" id (match qs with [] -> "-" | _ -> join (Stdlib.List.map (fun q ->
+        q ^ ":" ^ (match Widths.read_cid_width its (z_of_string dw) (n_of_string q) with Some w -> sz w | None -> "err")) qs))
+    | id :: "SW" :: inst :: dw :: [shape] ->
+      let s = Hashtbl.find simple inst in
+      let dw = z_of_string dw in
+      (* shape B: the dictionary uses the built-in encoding, enc(code) is "@" (not "") for every code *)
+      let ww = Widths.dict_width s and used = if shape = "B" then (fun _ -> true) else Widths.code_used s in
+      let (first, last) = Widths.simple_first_last ww used dw in
+      let ws = Widths.simple_widths ww used dw in
+      let cs = Stdlib.List.sort compare (Stdlib.List.map (fun (c, _) -> int_of_n c) s.s_info) in
+      Printf.printf "%s %s\n" id (match cs with [] -> "-" | _ -> join (Stdlib.List.map (fun c ->
+        Printf.sprintf "%d:%s" c (sz (Widths.read_simple first ws dw (n_of_int c)))) cs));
+      (* N: a standard font whose dictionary is written without /Widths *)
+      if shape = "N" then Printf.printf "%s.soft absent\n" id
+      else Printf.printf "%s.soft %s %s %d\n" id (sn first) (sn last) (Stdlib.List.length ws)
+    | id :: "VE" :: _n :: rest ->
+      let rec go = function
+        | c :: a :: b :: d :: r -> (n_of_string c, ((z_of_string a, z_of_string b), z_of_string d)) :: go r
+        | [] -> [] | _ -> failwith "bad VE" in
+      let l = go rest in
+      (match VMetrics.encode_v l with
+       | None -> Printf.printf "%s fuel\n" id
+       | Some its ->
+         Printf.printf "%s %s\n" id (match VMetrics.decode_v its with None -> "err" | Some l' -> show_vassign l');
+         Printf.printf "%s.soft %s\n" id (match its with [] -> "-" | _ -> show_vitems its))
+    | id :: "VD" :: rest ->
+      Printf.printf "%s %s\n" id (match VMetrics.decode_v (parse_vitems rest) with None -> "err" | Some l -> show_vassign l)
+    | id :: "VX" :: oy :: [dy] ->
+      let (a, b) = VMetrics.decode_dw2 (VMetrics.encode_dw2 (z_of_string oy, z_of_string dy)) in
+      Printf.printf "%s %s %s\n" id (sz a) (sz b);
+      Printf.printf "%s.soft %s\n" id (match VMetrics.encode_dw2 (z_of_string oy, z_of_string dy) with
+        | None -> "-" | Some l -> Stdlib.String.concat " " (Stdlib.List.map sz l))
+    | id :: "VW" :: _k :: vs ->
+      let (a, b) = VMetrics.decode_dw2 (match vs with [] -> None | _ -> Some (Stdlib.List.map z_of_string vs)) in
+      Printf.printf "%s %s %s\n" id (sz a) (sz b)
+    | id :: "XE" :: rs ->
+      Printf.printf "%s %s\n" id (match Utf16.encode16 (Stdlib.List.map n_of_string rs) with
+        | [] -> "-" | us -> Stdlib.String.concat " " (Stdlib.List.map sn us))
+    | id :: "XD" :: us ->
+      Printf.printf "%s %s\n" id (match Utf16.decode16 (Stdlib.List.map n_of_string us) with
+        | [] -> "-" | rs -> Stdlib.String.concat " " (Stdlib.List.map sn rs))
     | id :: "WD" :: rest ->
       let its = parse_items rest in
       Printf.printf "%s %s\n" id (match Widths.decode_w its with None -> "err" | Some l -> show_assign l)
